@@ -16,7 +16,7 @@ func init() {
 		ID: "C11",
 		Explanation: "Decides structural necessary conditions of C11: (R-C11-1) in Store.poll every iteration over the snapshot either issues GetIfChanged for that name or takes a skip path whose deciding condition depends (data/control dependence, through the snapshot's struct field and module callees) on a comma-ok read of the handle map Store.active.f: the store may only skip what it is going to forget, and it never forgets a name that has a handle; " +
 			"(R-C11-2) poll errors abort before applying: applyUpdates is edge-dominated by the nil edge of poll, every GetIfChanged error other than ErrValueNotChanged flows into the returned errors.Join, the refresh closure reports both failures; (R-C11-3) pairing: the name fetched, the version sent and the key written to the update set are the same snapshot entry, and apply installs updates[name] under name; " +
-			"(R-C11-8) a successful answer whose version differs from the held one reaches the update set on every path (path search with the == edge of the version comparison removed: an ordering test such as > leaves a path and is reported), and the poll loop has no early exit that lets poll return nil with names unvisited; (R-C11-4) apply happens in one critical section followed by a cache flush; (R-C11-5) single-flight keys are the constant \"poll\" or \"lookup:\"+name (disjoint families) and Refresh is the only route to poll/applyUpdates; (R-C11-7) cadence: the poller waits on one ticker created with interval plus a jitter of at most a tenth of the interval either way, and nothing resets that ticker; (R-C11-6) poll itself writes nothing to the active set, so a failed poll leaves every old value in place.",
+			"(R-C11-8) a successful answer whose version differs from the held one reaches the update set on every path (path search with the == edge of the version comparison removed: an ordering test such as > leaves a path and is reported), and the poll loop has no early exit that lets poll return nil with names unvisited; (R-C11-4) apply happens in one critical section followed by a cache flush; (R-C11-5) single-flight keys are the constant \"poll\" or \"lookup:\"+name (disjoint families) and Refresh is the only route to poll/applyUpdates; (R-C11-7) cadence: the poller waits on one ticker created with interval plus a jitter of at most a tenth of the interval either way, and nothing resets that ticker; (R-C11-6) poll itself writes nothing to the active set, so a failed poll leaves every old value in place. (R-C11-1, extended) every iteration of the poll loop either asks the service about that name or records the expired marker for it, and every name of the active set enters the snapshot the loop runs over.",
 		NotDecided:  "Freshness against the service's history; poll cadence +/-10% (arithmetic on a random value); convergence after failures.",
 		Trusted:     append([]string{"singleflight.Group runs one function per key at a time and hands every waiter its result", "errors.Join is nil iff all elements are nil"}, commonTrusted...),
 		Assumptions: []string{},
@@ -333,6 +333,55 @@ func c11Poll(c *eng.Ctx, poll *ssa.Function) {
 
 	// R-C11-1 skip paths
 	isFetch := func(in ssa.Instruction) bool { return in == ssa.Instruction(fetch) }
+	// an iteration that does not ask the service records the expired marker
+	// for that name (the only thing a poll may do instead of refreshing a
+	// name is to schedule it for removal)
+	{
+		isMarker := func(in ssa.Instruction) bool {
+			mu, ok := in.(*ssa.MapUpdate)
+			if !ok || !eng.IsNilConst(eng.Origin(mu.Value)) || eng.Origin(mu.Key) != loop.Key {
+				return false
+			}
+			mt, _ := mu.Map.Type().Underlying().(*types.Map)
+			return mt != nil && eng.IsNamed(mt.Elem(), "types/api", "SecretValue")
+		}
+		hit, path := eng.SearchBlock(poll, loop.Body, nil, func(x ssa.Instruction) bool { return isFetch(x) || isMarker(x) }, func(x ssa.Instruction) bool {
+			return x.Block() == loop.Header
+		})
+		if len(loop.Body.Instrs) > 0 && (isFetch(loop.Body.Instrs[0]) || isMarker(loop.Body.Instrs[0])) {
+			hit = nil
+		}
+		c.Check(hit == nil, "R-C11-1", poll, loop.Next.Pos(), "iterations of the poll loop", "every known name is either asked about or marked for removal in each poll (no name is silently left as it is: a successful poll brings EVERY known secret up to date)", func() string {
+			if hit == nil {
+				return ""
+			}
+			return "the next name is reached with neither: " + p.PathStr(path)
+		}())
+	}
+	// ... and the snapshot the loop runs over holds every name of the active set
+	if call, _ := eng.TupleCall(loop.Range.X); call != nil {
+		if sn := eng.Callee(&call.Call); sn != nil {
+			for _, sl := range mapLoops(sn) {
+				if nm, isAct := activeMapOf(sl.Range.X); !isAct || nm != "m" || sl.Body == nil {
+					continue
+				}
+				isPut := func(in ssa.Instruction) bool {
+					mu, ok := in.(*ssa.MapUpdate)
+					return ok && eng.Origin(mu.Key) == sl.Key
+				}
+				hit, path := eng.SearchBlock(sn, sl.Body, nil, isPut, func(x ssa.Instruction) bool { return x.Block() == sl.Header })
+				if len(sl.Body.Instrs) > 0 && isPut(sl.Body.Instrs[0]) {
+					hit = nil
+				}
+				c.Check(hit == nil, "R-C11-1", sn, sl.Next.Pos(), "iterations of the snapshot loop in "+eng.FName(sn), "every name of the active set enters the snapshot a poll works from (declared or not, with or without a handle)", func() string {
+					if hit == nil {
+						return ""
+					}
+					return "a name can be left out: " + p.PathStr(path)
+				}())
+			}
+		}
+	}
 	// enumerate body paths from body entry to header avoiding the fetch
 	// a skip path leaves the set of blocks from which the fetch is reachable
 	// at one branch: that branch's condition is the deciding one.
